@@ -212,7 +212,8 @@ class TU:
             # Forced includes are searched like a quote include from the directory of the main file
             # (the generator never relies on the compiler's cwd-first rule).
             p = self.resolve(inc, "q", os.path.dirname(os.path.realpath(main)))
-            if p is not None:
+            # a forced include is an include like any other: #pragma once applies (checked against gcc)
+            if p is not None and self.m.rel(os.path.realpath(p)) not in self.once:
                 self.process(p, 0)
         self.process(main, 0)
         return self
